@@ -3,6 +3,7 @@ package rules
 import (
 	"fmt"
 	"go/token"
+	"go/types"
 	"strings"
 
 	"gunyucheck/core"
@@ -73,6 +74,10 @@ func c12(w *core.World, r *core.Report) {
 	r.Rule("R12.4", "bulk argument framing and ParseArgs slicing", 2)
 	ruleBulkFraming(w, r)
 
+	r.Rule("R12.9", "the reply reader turns bytes into a string without a copy only for a buffer it allocated for that value, never for a view of the read buffer", 1)
+	ruleNoBufferAlias(w, r)
+	r.Rule("R12.8", "arguments queued in a transaction batcher are slices of their own: no buffer is reused across the commands of a unit", 2)
+	ruleQueuedArgsNotShared(w, r)
 	r.Rule("R12.7", "the encoder's pre-formatted integer table is filled over its whole length and read with the same offset", 1)
 	ruleItosTable(w, r)
 
@@ -864,4 +869,109 @@ func ruleItosTable(w *core.World, r *core.Report) {
 		}
 	}
 	r.Check(okFill && okRead, "client.itos/table", f.Pos(), "the pre-formatted integer table and its lookup disagree (%s; lookup guarded and offset recognised: %v): a length or count that hits an unfilled or shifted entry is written wrongly, with no error", why, okRead)
+}
+
+// ---------------------------------------------------------------- R12.8 queued arguments are not overwritten before they are encoded
+
+// ruleQueuedArgsNotShared: the transaction batchers keep the argument slice they
+// are given and encode it only when the batch is dispatched. Inside a loop that
+// queues several commands, the slice handed to Put must be one of its own per
+// command: a buffer carried round the loop (buf = fill(buf[:0], …); Put(cmd,
+// buf...)) makes every queued command of the unit share one backing array, and
+// all of them are sent with the arguments of the last.
+func ruleQueuedArgsNotShared(w *core.World, r *core.Report) {
+	n := 0
+	seen := map[*ssa.Function]bool{}
+	for _, top := range w.FuncsIn("syncer") {
+		for _, g := range core.DeepFuncs(top) {
+			if seen[g] {
+				continue
+			}
+			seen[g] = true
+			for _, in := range core.OwnInstrs(g) {
+				c, ok := in.(*ssa.Call)
+				if !ok || !c.Call.IsInvoke() || c.Call.Method.Name() != "Put" || !strings.HasSuffix(core.TypeName(c.Call.Value.Type()), "CmdBatcher") {
+					continue
+				}
+				head := core.LoopHeadOf(c.Block())
+				if head == nil || len(c.Call.Args) == 0 {
+					continue
+				}
+				n++
+				last := c.Call.Args[len(c.Call.Args)-1]
+				var carried *ssa.Phi
+				visited := map[ssa.Value]bool{}
+				var look func(v ssa.Value, depth int)
+				look = func(v ssa.Value, depth int) {
+					core.Walk(v, func(x ssa.Value) bool {
+						if visited[x] {
+							return false
+						}
+						visited[x] = true
+						if ph, isPhi := x.(*ssa.Phi); isPhi && ph.Parent() == g {
+							if _, isSl := ph.Type().Underlying().(*types.Slice); isSl && core.LoopHeadOf(ph.Block()) == ph.Block() && (ph.Block() == head || ph.Block().Dominates(c.Block())) {
+								carried = ph
+							}
+						}
+						// a slice-typed argument of a call may come back as (part of) its result
+						if call, isCall := x.(*ssa.Call); isCall && depth < 4 {
+							for _, a := range call.Call.Args {
+								if _, isSl := a.Type().Underlying().(*types.Slice); isSl {
+									look(a, depth+1)
+								}
+							}
+						}
+						return carried == nil
+					})
+				}
+				look(last, 0)
+				r.Check(carried == nil, shortName(core.FuncName(outermost(g)))+"/queued-args-fresh", c.Pos(), "the argument slice queued with Put is built on a buffer carried round the loop: the batcher keeps the slice until Dispatch, so every command queued from this loop is sent with the last command's arguments")
+			}
+		}
+	}
+	if n == 0 {
+		r.Fail("queued-args-fresh", token.NoPos, "no command is queued in a loop (two sites on the pinned tree)")
+	}
+}
+
+// ---------------------------------------------------------------- R12.9 decoded strings do not alias the read buffer
+
+// ruleNoBufferAlias: the reply reader converts value bytes to a string without
+// copying (util.BytesToString). That is sound only for a buffer the reader
+// allocated for that value. Applied to a view of bufio's internal buffer (Peek,
+// ReadSlice, the reader's own readLine/ReadLine) the string changes under its
+// holder as soon as the next fill overwrites the buffer — decoded arguments then
+// depend on how the underlying reads were fragmented.
+func ruleNoBufferAlias(w *core.World, r *core.Report) {
+	n := 0
+	for _, f := range w.FuncsIn("pkg/redis/client/proto") {
+		for _, s := range core.SitesNamed(f, false, "pkg/util.BytesToString") {
+			if s.Instr.Parent() != f || len(s.Args()) != 1 {
+				continue
+			}
+			n++
+			view := ""
+			own := false
+			core.Walk(s.Args()[0], func(x ssa.Value) bool {
+				switch y := x.(type) {
+				case *ssa.MakeSlice:
+					own = true
+				case *ssa.Call:
+					nm := core.ResolveCall(y).Name
+					if nm == "(*bufio.Reader).Peek" || nm == "(*bufio.Reader).ReadSlice" || nm == "(*bufio.Reader).ReadLine" ||
+						strings.HasSuffix(nm, "proto.Reader).readLine") || strings.HasSuffix(nm, "proto.Reader).ReadLine") || strings.HasSuffix(nm, "proto.Reader).Peek") {
+						view = nm
+					}
+				}
+				return true
+			})
+			if _, isPar := core.Unwrap(s.Args()[0]).(*ssa.Parameter); isPar && view == "" {
+				continue // the caller's bytes: judged where they are produced
+			}
+			r.Check(view == "" && own, shortName(core.FuncName(f))+"/string-of-own-buffer", s.Pos(), "bytes are turned into a string without a copy although they are (part of) a view of the read buffer (%s): the next fill of the buffer rewrites the decoded value", view)
+		}
+	}
+	if n == 0 {
+		r.OK("proto/string-of-own-buffer", token.NoPos, "no zero-copy conversion in the reply reader")
+	}
 }
